@@ -278,3 +278,21 @@ def thm_lookup(t0, t1):
     fs.reset_cache()
     fresh = fs.get_info("/data/2018/01/01/0000.nc")
     ensures(fresh.times[0] == datetime(2018, 1, 1), id="after reset_cache the name is parsed again")
+
+
+@theorem(P, "time-coverage-change-resets-cache", t0=_dt("t0", 2))
+def thm_tc_reset(t0):
+    """cached coverages depend on time_coverage: whenever it is (re)assigned -- from None to a duration, from one duration to
+    another, back to None -- nothing of the old cache may survive, so that get_info / find answer as a cache-less fileset"""
+    requires(t0.year >= 1000, t0.year <= 9000)
+    for first, second, want in ((None, timedelta(hours=6), timedelta(hours=6)), (timedelta(hours=6), timedelta(hours=1), timedelta(hours=1)),
+                                (timedelta(hours=6), None, timedelta(0))):
+        fs = FileSet(path="/data/{year}{month}{day}_{hour}{minute}.txt", name="verif", time_coverage=first)
+        name = fs.get_filename(t0)
+        before = fs.get_info(name)
+        ensures(before.times[0] == t0 and before.times[1] - before.times[0] == (first if first is not None else timedelta(0)),
+                id="coverage from the name plus time_coverage=%s" % (first,))
+        ensures(name in fs.info_cache, id="... and it is cached [%s]" % (first,))
+        fs.time_coverage = second
+        after = fs.get_info(name)
+        ensures(after.times[0] == t0 and after.times[1] - after.times[0] == want, id="after time_coverage = %s the file has the new coverage (no stale cache entry)" % (second,))
